@@ -440,7 +440,14 @@ class NameDriver(explore.Driver):
 def run_history_shard(acc, which, depth, first, tier):
     drv = NameDriver(which)
     drv.full_events = tier != "quick"
-    explore.explore(drv, acc, depth, roots=[(first,)] if first is not None else [()], oracle_on="new" if tier == "quick" else "all")
+    roots = [(first,)] if first is not None else [()]
+    if tier == "quick":
+        explore.explore(drv, acc, depth, roots=roots, oracle_on="new")
+    else:
+        # one level less with the oracle on EVERY transition (no reliance on the fingerprint), then the full depth
+        # with the oracle once per distinct state
+        explore.explore(drv, acc, max(depth - 1, 0), roots=roots, oracle_on="all")
+        explore.explore(drv, acc, depth, roots=roots, oracle_on="new")
     acc.dim(f"event alphabet [{which}]", len(drv.events()))
     acc.dim(f"probe alphabet [{which}]", len(drv.alpha))
 
